@@ -425,7 +425,7 @@ def ao1(ctx, R):
     prog = ctx.prog
     gs = prog.func("scaling.get_scaling")
     gcs = prog.func("scaling._get_channel_scaling")
-    v = Sym(prog, gs, None).function_value()
+    v = Sym(prog, gs, None, stack=(gcs.qual,)).function_value()
     b = match(("first", ("comp", W("elt"), W("bv"), W("it"), W("conds")), W("rest")), v)
     params = [("param", p) for p in gs.params[:3]]
     if b is None and find(v, ("sub", ("comp", W(), W(), W(), W()), ("const", -1))):
